@@ -38,7 +38,16 @@ func (o goMapObject) toKey(name string) reflect.Value {
 	return reflectValue.Convert(o.keyType)
 }
 
-func (o goMapObject) toValue(value Value) reflect.Value {
+func (o goMapObject) toValue(rt *runtime, value Value) reflect.Value {
+	if o.valueType.Kind() == reflect.Ptr && value.kind != valueNull && value.kind != valueUndefined {
+		// a pointer element is built like a pointer parameter (an object literal names the fields);
+		// what cannot be converted is a TypeError the script can catch
+		converted, err := rt.convertCallParameter(value, o.valueType)
+		if err != nil {
+			panic(rt.panicTypeError(err.Error()))
+		}
+		return converted
+	}
 	reflectValue, err := value.toReflectValue(o.valueType)
 	if err != nil {
 		panicConversionError(err)
@@ -110,7 +119,7 @@ func goMapDefineOwnProperty(obj *object, name string, descriptor property, throw
 		}
 		return obj.runtime.typeErrorResult(throw)
 	}
-	goObj.value.SetMapIndex(goObj.toKey(name), goObj.toValue(value))
+	goObj.value.SetMapIndex(goObj.toKey(name), goObj.toValue(obj.runtime, value))
 	return true
 }
 
